@@ -1399,8 +1399,11 @@ class Constructs(mixin.Container, core.Constructs):
                     # Still here? Then all constructs of this type
                     # that spanning these axes match
                     constructs1.pop(construct_type, None)
+                else:
+                    # Every construct type has been matched (the
+                    # loop was not left early)
+                    matched_all_constructs_with_these_axes = not constructs1
 
-                matched_all_constructs_with_these_axes = not constructs1
                 if matched_all_constructs_with_these_axes:
                     del axes_to_constructs1[axes1]
                     break
